@@ -1,0 +1,248 @@
+//go:build verif
+
+// Contracts for the reference payload / block code (C19), read by the verifier in /verif (govc).  Comments only.
+//
+// What is decided here is the part of C19 that is a property of THIS package's code: every
+// consensus-relevant field of a payload, message body or block header is handed to the encoder and
+// taken back from the decoder; the hash of a payload is always computed from its present content
+// (the cache field is never filled); what a recovery message gives back for a proposal or a response
+// carries the fields of the original; the decoders do not panic on any decoded content.  That gob
+// reproduces what it was given and that SHA-256 / ECDSA behave as specified is assumed (A-GOB, A-HASH).
+
+package consensus
+
+//@ runtags [C19]
+//@ opaque crypto.Uint256
+//@ opaque crypto.Uint160
+//@ option freshalloc
+//@ pure ConsensusMessage.ViewNumber
+//@ pure ConsensusMessage.Type
+//@ pure ConsensusMessage.GetPrepareRequest
+//@ pure ConsensusMessage.GetPreCommit
+//@ pure ConsensusMessage.GetCommit
+//@ pure ConsensusPayload.ValidatorIndex
+//@ pure ConsensusPayload.Height
+//@ pure ConsensusPayload.Hash
+//@ pure PrepareRequest.Nonce
+//@ pure PrepareRequest.TransactionHashes
+//@ pure Commit.Signature
+//@ pure PreCommit.Data
+
+// number of values handed to a gob encoder so far
+//@ ghost gEncoded Int
+//@ extern (*encoding/gob.Encoder).Encode
+//@   ghost gEncoded = gEncoded + 1
+
+// seconds <-> nanoseconds used for the block / proposal timestamp
+//@ func secToNanoSec
+//@   ensures [C19] @exact result == s * 1000000000
+//@   modifies nothing
+//@ func nanoSecToSec
+//@   requires ns / 1000000000 <= 4294967295
+//@   ensures [C19] @exact result == ns / 1000000000
+//@   modifies nothing
+//@ lemma [C19] timestampRoundTrip(s) = implies(0 <= s && s <= 4294967295, (s * 1000000000) / 1000000000 == s && s * 1000000000 <= 18446744073709551615)
+
+// ---- bodies: every field goes into the encoded structure and comes back from it ----
+
+//@ func (prepareRequest).EncodeBinary
+//@   modifies gEncoded
+//@   at call w.Encode: assert [C19] @allFields arg0.Timestamp == p.timestamp && arg0.Nonce == p.nonce && sametable(arg0.TransactionHashes, p.transactionHashes)
+//@   ensures [C19] @oneValue gEncoded == old(gEncoded) + 1
+//@ func (*prepareRequest).DecodeBinary
+//@   ensures [C19] @allFields implies(result == nil, p.timestamp == decoded(prepareRequestAux).Timestamp && p.nonce == decoded(prepareRequestAux).Nonce && sametable(p.transactionHashes, decoded(prepareRequestAux).TransactionHashes))
+//@ func (prepareResponse).EncodeBinary
+//@   modifies gEncoded
+//@   at call w.Encode: assert [C19] @allFields arg0.PreparationHash == p.preparationHash
+//@ func (*prepareResponse).DecodeBinary
+//@   ensures [C19] @allFields implies(result == nil, p.preparationHash == decoded(prepareResponseAux).PreparationHash)
+//@ func (changeView).EncodeBinary
+//@   modifies gEncoded
+//@   at call w.Encode: assert [C19] @allFields arg0.Timestamp == c.timestamp
+//@ func (*changeView).DecodeBinary
+//@   ensures [C19] @allFields implies(result == nil, c.timestamp == decoded(changeViewAux).Timestamp)
+//@   ensures [C19] @viewKept c.newViewNumber == old(c.newViewNumber)
+//@ func (recoveryRequest).EncodeBinary
+//@   modifies gEncoded
+//@   at call w.Encode: assert [C19] @allFields arg0.Timestamp == m.timestamp
+//@ func (*recoveryRequest).DecodeBinary
+//@   ensures [C19] @allFields implies(result == nil, m.timestamp == decoded(recoveryRequestAux).Timestamp)
+//@ func (preCommit).EncodeBinary
+//@   modifies gEncoded
+//@   at call w.Encode: assert [C19] @allFields arg0.Magic == c.magic
+//@ func (*preCommit).DecodeBinary
+//@   ensures [C19] @allFields implies(result == nil, c.magic == decoded(preCommitAux).Magic)
+//@ func (commit).EncodeBinary
+//@   modifies gEncoded
+//@   at call w.Encode: assert [C19] @allFields sametable(arg0.Signature, c.signature)
+//@ func (*commit).DecodeBinary
+//@   ensures [C19] @allFields implies(result == nil, sametable(c.signature, decoded(commitAux).Signature))
+//@ func (amevCommit).EncodeBinary
+//@   modifies gEncoded
+//@   at call w.Encode: assert [C19] @allFields sametable(arg0.Data, c.data)
+//@ func (*amevCommit).DecodeBinary
+//@   ensures [C19] @allFields implies(result == nil, sametable(c.data, decoded(amevCommitAux).Data))
+
+// ---- block header: the hashed and signed data is exactly the header, one encoded value ----
+
+//@ func (base).EncodeBinary
+//@   modifies gEncoded
+//@   at call w.Encode: assert [C19] @allFields arg0.ConsensusData == b.ConsensusData && arg0.Index == b.Index && arg0.Timestamp == b.Timestamp && arg0.Version == b.Version && arg0.MerkleRoot == b.MerkleRoot && arg0.PrevHash == b.PrevHash && arg0.NextConsensus == b.NextConsensus
+//@   ensures [C19] @oneValue gEncoded == old(gEncoded) + 1
+//@ func (*neoBlock).GetHashData
+//@   modifies gEncoded
+//@   ensures [C19] @headerOnly gEncoded == old(gEncoded) + 1
+//@ func (*amevBlock).GetHashData
+//@   modifies gEncoded
+//@   ensures [C19] @headerOnly gEncoded == old(gEncoded) + 1
+
+// ---- envelope: message type, view, and the payload header ----
+
+//@ ghost gMessageAux Ref messageAux
+//@ ghost gPayloadAux Ref payloadAux
+
+// the bodies behind the Serializable interface are the ones above (and the recovery message below)
+//@ extern Serializable.EncodeBinary
+//@   modifies gEncoded
+//@ extern Serializable.DecodeBinary
+//@   modifies $decoded, heap box.*, heap prepareRequest.*, heap prepareResponse.*, heap changeView.*, heap commit.*, heap amevCommit.*, heap preCommit.*, heap recoveryRequest.*, heap recoveryMessage.*, heap prepareRequestAux.*, heap prepareResponseAux.*, heap changeViewAux.*, heap commitAux.*, heap amevCommitAux.*, heap preCommitAux.*, heap recoveryRequestAux.*, heap recoveryMessageAux.*
+
+//@ func (message).EncodeBinary
+//@   modifies gEncoded
+//@   requires m.payload != nil
+//@   at call w.Encode: assert [C19] @allFields arg0.CMType == m.cmType && arg0.ViewNumber == m.viewNumber
+//@ func (*message).DecodeBinary
+// a ChangeView body gets its target view from the envelope: view + 1 as a byte (255 wraps to 0, deliberately total)
+//@   wraps m.viewNumber+1
+//@   at call r.Decode: ghost gMessageAux = arg0
+//@   modifies gMessageAux, $decoded, heap box.*, heap message.*, heap Payload.message, heap messageAux.*, heap prepareRequest.*, heap prepareResponse.*, heap changeView.*, heap commit.*, heap amevCommit.*, heap preCommit.*, heap recoveryRequest.*, heap recoveryMessage.*, heap prepareRequestAux.*, heap prepareResponseAux.*, heap changeViewAux.*, heap commitAux.*, heap amevCommitAux.*, heap preCommitAux.*, heap recoveryRequestAux.*, heap recoveryMessageAux.*
+//@   ensures [C19] @allFields implies(result == nil, m.cmType == gMessageAux.CMType && m.viewNumber == gMessageAux.ViewNumber && m.payload != nil)
+//@ func (Payload).EncodeBinary
+//@   modifies gEncoded
+//@   requires p.message.payload != nil
+//@   at call w.Encode: assert [C19] @allFields arg0.Version == p.version && arg0.ValidatorIndex == p.validatorIndex && arg0.PrevHash == p.prevHash && arg0.Height == p.height
+//@ func (*Payload).DecodeBinary
+//@   requires p.hash == nil
+//@   at call r.Decode: ghost gPayloadAux = arg0
+//@   ensures [C19] @allFields implies(result == nil, p.version == gPayloadAux.Version && p.validatorIndex == gPayloadAux.ValidatorIndex && p.prevHash == gPayloadAux.PrevHash && p.height == gPayloadAux.Height)
+//@   ensures [C19] @noStaleHash p.hash == nil
+
+// ---- the hash of a payload is computed from its present content: the cache field is never filled ----
+
+//@ func NewConsensusPayload
+//@   ensures [C19] @fresh result != nil
+//@ func fromPayload
+//@   modifies nothing
+//@   ensures [C19] @freshObject fresh(result)
+//@   requires recovery != nil
+//@   ensures [C19] @fresh result != nil && result.hash == nil && result.version == 0 && result.validatorIndex == 0
+//@   ensures [C19] @sameSlot result.message.cmType == t && result.message.viewNumber == recovery.ViewNumber() && result.height == recovery.Height() && result.message.payload == p
+//@ func (*Payload).SetValidatorIndex
+//@   modifies heap Payload.validatorIndex
+//@   requires p.hash == nil
+//@   ensures [C19] @set p.validatorIndex == i
+//@   ensures [C19] @noStaleHash p.hash == nil
+//@   ensures [C19] @restKept p.version == old(p.version) && p.prevHash == old(p.prevHash) && p.height == old(p.height) && p.message.cmType == old(p.message.cmType) && p.message.viewNumber == old(p.message.viewNumber) && p.message.payload == old(p.message.payload)
+//@ func (*Payload).UnmarshalUnsigned
+//@   requires p.hash == nil
+//@   ensures [C19] @noStaleHash p.hash == nil
+//@ func (*Payload).Hash
+//@   requires p.hash == nil && p.message.payload != nil
+//@   ensures [C19] @noStaleHash p.hash == nil
+//@   ensures [C19] @contentKept p.version == old(p.version) && p.validatorIndex == old(p.validatorIndex) && p.prevHash == old(p.prevHash) && p.height == old(p.height) && p.message.cmType == old(p.message.cmType) && p.message.viewNumber == old(p.message.viewNumber) && p.message.payload == old(p.message.payload)
+//@ func (Payload).MarshalUnsigned
+//@   modifies gEncoded
+//@   requires p.message.payload != nil
+
+// ---- recovery message: what it gives back for a proposal or a response carries the fields of the original ----
+
+//@ ghost gRecoveryAux Ref recoveryMessageAux
+// what a PreCommit carries is the four bytes GetPreCommits reads back
+//@ pred rmwf(m) = forall(k, 0, len(m.preCommitPayloads), len(m.preCommitPayloads[k].Data) >= 4)
+
+//@ func (*recoveryMessage).AddPayload
+//@   requires p != nil
+//@   requires implies(p.Type() == dbft.PreCommitType, p.GetPreCommit() != nil && len(p.GetPreCommit().Data()) >= 4)
+//@   requires implies(p.Type() == dbft.CommitType, p.GetCommit() != nil)
+//@   requires rmwf(m)
+//@   ensures [C19] @wellFormed rmwf(m)
+//@   ensures [C19] @proposalKept implies(p.Type() == dbft.PrepareRequestType, m.prepareRequest == p.GetPrepareRequest() && m.preparationHash != nil && *m.preparationHash == p.Hash())
+//@   ensures [C19] @responseKept implies(p.Type() == dbft.PrepareResponseType, len(m.preparationPayloads) == old(len(m.preparationPayloads)) + 1 && m.preparationPayloads[old(len(m.preparationPayloads))].ValidatorIndex == p.ValidatorIndex())
+//@   ensures [C19] @commitKept implies(p.Type() == dbft.CommitType, len(m.commitPayloads) == old(len(m.commitPayloads)) + 1 && m.commitPayloads[old(len(m.commitPayloads))].ValidatorIndex == p.ValidatorIndex() && m.commitPayloads[old(len(m.commitPayloads))].ViewNumber == p.ViewNumber())
+//@   ensures [C19] @preCommitKept implies(p.Type() == dbft.PreCommitType, len(m.preCommitPayloads) == old(len(m.preCommitPayloads)) + 1 && m.preCommitPayloads[old(len(m.preCommitPayloads))].ValidatorIndex == p.ValidatorIndex() && m.preCommitPayloads[old(len(m.preCommitPayloads))].ViewNumber == p.ViewNumber() && sametable(m.preCommitPayloads[old(len(m.preCommitPayloads))].Data, p.GetPreCommit().Data()))
+
+// the proposal rebuilt from a recovery message: same slot as the recovery message, the asked-for sender, the
+// body of the stored proposal (its timestamp is a whole number of seconds, see (prepareRequest).Timestamp)
+//@ extern PrepareRequest.Timestamp
+//@   pure
+//@   ensures emod(result, 1000000000) == 0 && result / 1000000000 <= 4294967295 && result >= 0
+//@ func (prepareRequest).Timestamp
+//@   ensures [C19] @wholeSeconds emod(result, 1000000000) == 0 && result / 1000000000 <= 4294967295 && result == p.timestamp * 1000000000
+//@ func (*recoveryMessage).GetPrepareRequest
+//@   requires p != nil
+//@   ensures [C19] @none implies(old(m.prepareRequest) == nil, result == nil)
+//@   ensures [C19] @rebuilt implies(old(m.prepareRequest) != nil, result != nil && as(Payload, result).message.cmType == dbft.PrepareRequestType && as(Payload, result).message.viewNumber == p.ViewNumber() && as(Payload, result).height == p.Height() && as(Payload, result).validatorIndex == ind && as(Payload, result).hash == nil)
+//@   ensures [C19] @sameBody implies(old(m.prepareRequest) != nil, as(Payload, result).message.payload != nil && as(prepareRequest, as(Payload, result).message.payload).timestamp * 1000000000 == m.prepareRequest.Timestamp() && as(prepareRequest, as(Payload, result).message.payload).nonce == m.prepareRequest.Nonce() && sametable(as(prepareRequest, as(Payload, result).message.payload).transactionHashes, m.prepareRequest.TransactionHashes()))
+
+// The payloads this package hands out behind dbft.ConsensusPayload are its own *Payload: an interface call of
+// SetValidatorIndex on them is (*Payload).SetValidatorIndex, whose contract above this restates (dispatch assumption).
+//@ extern ConsensusPayload.SetValidatorIndex
+//@   modifies heap Payload.validatorIndex
+//@   ensures as(Payload, recv).validatorIndex == arg0
+//@   ensures forallOf(Payload, q, implies(q != recv, q.validatorIndex == old(q.validatorIndex)))
+
+// the responses rebuilt from a recovery message: one per stored responder, in the recovery message's slot,
+// each carrying the hash of the stored proposal
+//@ func (*recoveryMessage).GetPrepareResponses
+//@   requires p != nil
+//@   loop 1: invariant 0 <= idx && idx <= len(m.preparationPayloads) && len(payloads) == len(m.preparationPayloads) && m.preparationHash != nil
+//@   loop 1: invariant forall(k, 0, idx, payloads[k] != nil && as(Payload, payloads[k]).message.cmType == dbft.PrepareResponseType && as(Payload, payloads[k]).message.viewNumber == p.ViewNumber() && as(Payload, payloads[k]).height == p.Height() && as(Payload, payloads[k]).hash == nil)
+//@   loop 1: invariant forall(k, 0, idx, as(Payload, payloads[k]).validatorIndex == m.preparationPayloads[k].ValidatorIndex)
+//@   loop 1: invariant forall(k, 0, idx, as(Payload, payloads[k]).message.payload != nil && as(prepareResponse, as(Payload, payloads[k]).message.payload).preparationHash == *m.preparationHash)
+//@   ensures [C19] @none implies(m.preparationHash == nil, len(result) == 0)
+//@   ensures [C19] @onePerResponder implies(m.preparationHash != nil, len(result) == len(m.preparationPayloads))
+//@   ensures [C19] @sameSlot implies(m.preparationHash != nil, forall(k, 0, len(result), result[k] != nil && as(Payload, result[k]).message.cmType == dbft.PrepareResponseType && as(Payload, result[k]).message.viewNumber == p.ViewNumber() && as(Payload, result[k]).height == p.Height() && as(Payload, result[k]).hash == nil))
+//@   ensures [C19] @sameSender implies(m.preparationHash != nil, forall(k, 0, len(result), as(Payload, result[k]).validatorIndex == m.preparationPayloads[k].ValidatorIndex))
+//@   ensures [C19] @sameHash implies(m.preparationHash != nil, forall(k, 0, len(result), as(prepareResponse, as(Payload, result[k]).message.payload).preparationHash == *m.preparationHash))
+
+// the other lists a recovery message gives back: one payload per stored entry, in the recovery message's slot
+//@ func (*recoveryMessage).GetCommits
+//@   requires p != nil
+//@   loop 1: invariant 0 <= idx && idx <= len(m.commitPayloads) && len(payloads) == len(m.commitPayloads)
+//@   loop 1: invariant forall(k, 0, idx, payloads[k] != nil && as(Payload, payloads[k]).message.cmType == dbft.CommitType && as(Payload, payloads[k]).message.viewNumber == p.ViewNumber() && as(Payload, payloads[k]).height == p.Height() && as(Payload, payloads[k]).hash == nil)
+//@   loop 1: invariant forall(k, 0, idx, as(Payload, payloads[k]).validatorIndex == m.commitPayloads[k].ValidatorIndex)
+//@   loop 1: invariant forall(k, 0, idx, as(Payload, payloads[k]).message.payload != nil && sametable(as(commit, as(Payload, payloads[k]).message.payload).signature, m.commitPayloads[k].Signature))
+//@   ensures [C19] @onePerEntry len(result) == len(m.commitPayloads)
+//@   ensures [C19] @sameSlot forall(k, 0, len(result), result[k] != nil && as(Payload, result[k]).message.cmType == dbft.CommitType && as(Payload, result[k]).message.viewNumber == p.ViewNumber() && as(Payload, result[k]).height == p.Height() && as(Payload, result[k]).hash == nil)
+//@   ensures [C19] @sameSender forall(k, 0, len(result), as(Payload, result[k]).validatorIndex == m.commitPayloads[k].ValidatorIndex)
+//@   ensures [C19] @sameSignature forall(k, 0, len(result), sametable(as(commit, as(Payload, result[k]).message.payload).signature, m.commitPayloads[k].Signature))
+//@ func (*recoveryMessage).GetChangeViews
+//@   requires p != nil
+//@   wraps cv.OriginalViewNumber+1
+//@   loop 1: invariant 0 <= idx && idx <= len(m.changeViewPayloads) && len(payloads) == len(m.changeViewPayloads)
+//@   loop 1: invariant forall(k, 0, idx, payloads[k] != nil && as(Payload, payloads[k]).message.cmType == dbft.ChangeViewType && as(Payload, payloads[k]).message.viewNumber == p.ViewNumber() && as(Payload, payloads[k]).height == p.Height() && as(Payload, payloads[k]).hash == nil)
+//@   loop 1: invariant forall(k, 0, idx, as(Payload, payloads[k]).validatorIndex == m.changeViewPayloads[k].ValidatorIndex)
+//@   ensures [C19] @onePerEntry len(result) == len(m.changeViewPayloads)
+//@   ensures [C19] @sameSlot forall(k, 0, len(result), result[k] != nil && as(Payload, result[k]).message.cmType == dbft.ChangeViewType && as(Payload, result[k]).message.viewNumber == p.ViewNumber() && as(Payload, result[k]).height == p.Height() && as(Payload, result[k]).hash == nil)
+//@   ensures [C19] @sameSender forall(k, 0, len(result), as(Payload, result[k]).validatorIndex == m.changeViewPayloads[k].ValidatorIndex)
+//@ func (*recoveryMessage).GetPreCommits
+//@   requires p != nil
+//@   requires rmwf(m)
+//@   loop 1: invariant 0 <= idx && idx <= len(m.preCommitPayloads) && len(payloads) == len(m.preCommitPayloads)
+//@   loop 1: invariant forall(k, 0, idx, payloads[k] != nil && as(Payload, payloads[k]).message.cmType == dbft.PreCommitType && as(Payload, payloads[k]).message.viewNumber == p.ViewNumber() && as(Payload, payloads[k]).height == p.Height() && as(Payload, payloads[k]).hash == nil)
+//@   loop 1: invariant forall(k, 0, idx, as(Payload, payloads[k]).validatorIndex == m.preCommitPayloads[k].ValidatorIndex)
+//@   ensures [C19] @onePerEntry len(result) == len(m.preCommitPayloads)
+//@   ensures [C19] @sameSlot forall(k, 0, len(result), result[k] != nil && as(Payload, result[k]).message.cmType == dbft.PreCommitType && as(Payload, result[k]).message.viewNumber == p.ViewNumber() && as(Payload, result[k]).height == p.Height() && as(Payload, result[k]).hash == nil)
+//@   ensures [C19] @sameSender forall(k, 0, len(result), as(Payload, result[k]).validatorIndex == m.preCommitPayloads[k].ValidatorIndex)
+
+// the recovery message's own encoding: every list goes into the encoded structure and comes back from it
+//@ func NewRecoveryMessage
+//@   ensures [C19] @wellFormed result != nil
+//@ func (recoveryMessage).EncodeBinary
+//@   modifies gEncoded
+//@   at call w.Encode<recoveryMessageAux>: assert [C19] @allLists sametable(arg0.PreparationPayloads, m.preparationPayloads) && sametable(arg0.PreCommitPayloads, m.preCommitPayloads) && sametable(arg0.CommitPayloads, m.commitPayloads) && sametable(arg0.ChangeViewPayloads, m.changeViewPayloads)
+//@ func (*recoveryMessage).DecodeBinary
+//@   at call r.Decode<recoveryMessageAux>: ghost gRecoveryAux = arg0
+//@   loop 1: invariant 0 <= idx && idx <= len(aux.PreCommitPayloads) && forall(k, 0, idx, len(aux.PreCommitPayloads[k].Data) == 4)
+//@   ensures [C19] @allLists implies(result == nil, sameelems(m.preparationPayloads, gRecoveryAux.PreparationPayloads) && sameelems(m.preCommitPayloads, gRecoveryAux.PreCommitPayloads) && sameelems(m.commitPayloads, gRecoveryAux.CommitPayloads) && sameelems(m.changeViewPayloads, gRecoveryAux.ChangeViewPayloads))
+//@   ensures [C19] @wellFormed implies(result == nil, rmwf(m))
